@@ -713,6 +713,17 @@ def gen_c15(rng, profile):
         kn["inherit"] = True
     spec = gen.gen_family(rng, kn)
     fam = F.Fam(spec)
+    if rng.random() < 0.5:
+        # "creating subclasses never changes what an existing class or codec
+        # does": let the last variant of a hierarchy arrive in a chunk of its own
+        leaves = [n for n in fam.order if fam.family_bases(n) and not fam.subclasses(n)
+                  and fam.tag(n) and not any(n in fam.field_refs(m) for m in fam.order)]
+        if leaves:
+            late = rng.choice(leaves)
+            for ch in spec["chunks"]:
+                ch[:] = [c for c in ch if c["name"] != late]
+            spec["chunks"] = [ch for ch in spec["chunks"] if ch] + [[fam.cls(late)]]
+            fam = F.Fam(spec)
     base_ops = gen.gen_history(rng, spec, kn, n_ops=rng.randint(3, 9))
     ops = []
     cur = 1
